@@ -24,6 +24,15 @@ PROP = 'C18'
 _LEAF = {}
 
 
+def _module_tables(mod):
+    tables = {}
+    for st in mod.tree.body:
+        if isinstance(st, ast.Assign) and len(st.targets) == 1 and \
+                isinstance(st.targets[0], ast.Name):
+            tables[st.targets[0].id] = st.value
+    return tables
+
+
 def leaf_helpers(prog):
     """module-level functions of the OBDD module that take no part in the
     recursion of the expression parser (neither recursive nor calling a
@@ -33,11 +42,19 @@ def leaf_helpers(prog):
         return _LEAF[id(prog)]
     mod = prog.module('BDD.OBDD')
     calls = {}
+    tables = _module_tables(mod)
     for name, f in mod.funcs.items():
         calls[name] = set(
             n.func.id for n in ast.walk(f.node)
             if isinstance(n, ast.Call) and isinstance(n.func, ast.Name) and
             n.func.id in mod.funcs)
+        # functions named in a module-level dispatch table the function
+        # reads are (possible) callees too
+        for n in ast.walk(f.node):
+            if isinstance(n, ast.Name) and n.id in tables:
+                calls[name] |= set(
+                    m.id for m in ast.walk(tables[n.id])
+                    if isinstance(m, ast.Name) and m.id in mod.funcs)
     reach = {k: set(v) for k, v in calls.items()}
     changed = True
     while changed:
